@@ -189,7 +189,8 @@ class _EnvSubst(ast.NodeTransformer):
         return node
 
 
-_PURE_CALLS = {"min", "max", "abs", "float", "int", "len", "sum", "sqrt", "bool", "str", "tuple", "Point", "Shape", "round"}
+_PURE_CALLS = {"min", "max", "abs", "float", "int", "len", "sum", "sqrt", "bool", "str", "tuple", "Point", "Shape", "round", "all", "any", "isinstance",
+               "values", "items", "keys", "acos", "cos", "sin", "list", "dict", "set", "sorted", "range", "enumerate", "zip", "area", "is_number"}
 
 
 def _pure_expr(e: ast.expr) -> bool:
@@ -204,40 +205,70 @@ def _pure_expr(e: ast.expr) -> bool:
 
 
 def _straight_line_expr(body: list) -> Optional[ast.expr]:
-    """a helper that computes plain locals (possibly adjusted under a condition) and returns an expression of them:
-    the returned expression with the locals replaced by their definitions (conditional adjustments become conditional
-    expressions)"""
-    env: dict = {}
-    if not body or not isinstance(body[-1], ast.Return) or body[-1].value is None:
-        return None
+    """a helper without loops or effects -- plain locals, conditionals whose arms assign locals or return, a return on
+    every path -- as one expression: locals are replaced by their definitions, conditionals become conditional
+    expressions (``if c: return a`` ; ``return b``  ->  ``a if c else b``)"""
+    budget = [200]
 
-    def sub(e):
-        return _EnvSubst(env).visit(copy.deepcopy(e))
-    for st in body[:-1]:
+    def ev(stmts: list, env: dict) -> Optional[ast.expr]:
+        budget[0] -= 1
+        if budget[0] < 0 or not stmts:
+            return None
+        st, rest = stmts[0], stmts[1:]
+
+        def sub(e):
+            return _EnvSubst(env).visit(copy.deepcopy(e))
+        if isinstance(st, ast.Return):
+            return sub(st.value) if st.value is not None else ast.Constant(value=None)
         if isinstance(st, ast.AnnAssign) and st.value is not None and isinstance(st.target, ast.Name):
             st = ast.Assign(targets=[st.target], value=st.value)
-        if isinstance(st, ast.Assign) and len(st.targets) == 1 and isinstance(st.targets[0], ast.Name) and _pure_expr(st.value):
-            env[st.targets[0].id] = sub(st.value)
-        elif isinstance(st, ast.Assign) and len(st.targets) == 1 and isinstance(st.targets[0], ast.Tuple) and isinstance(st.value, ast.Tuple) \
-                and len(st.targets[0].elts) == len(st.value.elts) and all(isinstance(t, ast.Name) for t in st.targets[0].elts) and _pure_expr(st.value):
-            vals = [sub(v) for v in st.value.elts]
-            for t, v in zip(st.targets[0].elts, vals):
-                env[t.id] = v
-        elif isinstance(st, ast.If) and not st.orelse and _pure_expr(st.test) and \
-                all(isinstance(x, ast.Assign) and len(x.targets) == 1 and isinstance(x.targets[0], ast.Name) and _pure_expr(x.value)
-                    and x.targets[0].id in env for x in st.body):
-            test = sub(st.test)
-            new = {}
-            inner = dict(env)
-            for x in st.body:
-                v = _EnvSubst(inner).visit(copy.deepcopy(x.value))
-                inner[x.targets[0].id] = v
-                new[x.targets[0].id] = v
-            for nm, v in new.items():
-                env[nm] = ast.IfExp(test=copy.deepcopy(test), body=v, orelse=env[nm])
-        else:
+        if isinstance(st, ast.Assign) and len(st.targets) == 1 and _pure_expr(st.value):
+            t = st.targets[0]
+            if isinstance(t, ast.Name):
+                env2 = dict(env)
+                env2[t.id] = sub(st.value)
+                return ev(rest, env2)
+            if isinstance(t, ast.Tuple) and isinstance(st.value, ast.Tuple) and len(t.elts) == len(st.value.elts) and all(isinstance(x, ast.Name) for x in t.elts):
+                vals = [sub(v) for v in st.value.elts]
+                env2 = dict(env)
+                for x, v in zip(t.elts, vals):
+                    env2[x.id] = v
+                return ev(rest, env2)
             return None
-    return sub(body[-1].value)
+        if isinstance(st, ast.If) and _pure_expr(st.test) and not _has(st, ast.Return):
+            # arms that only (re)define locals: each such local becomes a conditional expression
+            def arm(stmts_, base):
+                e2 = dict(base)
+                for x in stmts_:
+                    if isinstance(x, ast.AnnAssign) and x.value is not None and isinstance(x.target, ast.Name):
+                        x = ast.Assign(targets=[x.target], value=x.value)
+                    if isinstance(x, ast.Pass):
+                        continue
+                    if not (isinstance(x, ast.Assign) and len(x.targets) == 1 and isinstance(x.targets[0], ast.Name) and _pure_expr(x.value)):
+                        return None
+                    e2[x.targets[0].id] = _EnvSubst(e2).visit(copy.deepcopy(x.value))
+                return e2
+            ea, eb = arm(st.body, env), arm(st.orelse, env)
+            if ea is None or eb is None:
+                return None
+            test = sub(st.test)
+            env2 = dict(env)
+            for nm in set(ea) | set(eb):
+                va, vb = ea.get(nm), eb.get(nm)
+                if va is None or vb is None:
+                    return None          # defined on one path only
+                env2[nm] = va if ast.dump(va) == ast.dump(vb) else ast.IfExp(test=copy.deepcopy(test), body=va, orelse=vb)
+            return ev(rest, env2)
+        if isinstance(st, ast.If) and _pure_expr(st.test):
+            a = ev(list(st.body) + rest, env)
+            b = ev(list(st.orelse) + rest, env)
+            if a is None or b is None:
+                return None
+            return ast.IfExp(test=sub(st.test), body=a, orelse=b)
+        if isinstance(st, ast.Pass):
+            return ev(rest, env)
+        return None
+    return ev(list(body), {})
 
 
 def _expr_form(h) -> Optional[ast.expr]:
